@@ -7,9 +7,10 @@ set_option linter.unusedSimpArgs false
 
 theorem apply_place_flat_w (basis : Array W) (p : Pos) (x y : Nat) (hx : x < p.cfg.size) (hy : y < p.cfg.size)
     (h64 : p.cfg.size * p.cfg.size ≤ 64) (hply : 2 ≤ p.move) (hw : p.toMove = .white)
+    (hdis : ∀ k, p.white.getLsbD k = true → p.black.getLsbD k = true → False)
     (hemp : (p.white ||| p.black).getLsbD (x + y * p.cfg.size) = false)
     (hst : p.whiteStones ≠ 0#8) :
-    ∃ q, p.apply basis ⟨x, y, Facts.mtPlaceFlat, 0⟩ = .ok q ∧ After p q 64 (x + y * p.cfg.size) p.white q.white := by
+    ∃ q, p.apply basis ⟨x, y, Facts.mtPlaceFlat, 0⟩ = .ok q ∧ After p q 64 (x + y * p.cfg.size) p.white q.white p.black q.black := by
   have h2 : ¬ (p.move < 2) := by omega
   have hx' : ¬ ((p.cfg.size : Int) ≤ x) := by omega
   have hy' : ¬ ((p.cfg.size : Int) ≤ y) := by omega
@@ -24,16 +25,17 @@ theorem apply_place_flat_w (basis : Array W) (p : Pos) (x y : Nat) (hx : x < p.c
   simp only [Bool.or_eq_false_iff] at hemp
   unfold Pos.apply
   simp [Facts.mtPlaceFlat, Facts.mtPlaceCapstone, Facts.mtPlaceStanding, Facts.mtPass, hw, h2, hx', hy', hxn, hyn, hidx,
-    hemp.1, hemp.2, hst]
+    hemp.1, hemp.2, hst, dispatch, openingRule, placeOn]
   apply finish_exists
   intro wg bg hwg hbg
   constructor <;> simp only [] <;> first | rfl | assumption | place_bits hs64
 
 theorem apply_place_cap_w (basis : Array W) (p : Pos) (x y : Nat) (hx : x < p.cfg.size) (hy : y < p.cfg.size)
     (h64 : p.cfg.size * p.cfg.size ≤ 64) (hply : 2 ≤ p.move) (hw : p.toMove = .white)
+    (hdis : ∀ k, p.white.getLsbD k = true → p.black.getLsbD k = true → False)
     (hemp : (p.white ||| p.black).getLsbD (x + y * p.cfg.size) = false)
     (hst : p.whiteCaps ≠ 0#8) :
-    ∃ q, p.apply basis ⟨x, y, Facts.mtPlaceCapstone, 0⟩ = .ok q ∧ After p q 64 (x + y * p.cfg.size) p.white q.white := by
+    ∃ q, p.apply basis ⟨x, y, Facts.mtPlaceCapstone, 0⟩ = .ok q ∧ After p q 64 (x + y * p.cfg.size) p.white q.white p.black q.black := by
   have h2 : ¬ (p.move < 2) := by omega
   have hx' : ¬ ((p.cfg.size : Int) ≤ x) := by omega
   have hy' : ¬ ((p.cfg.size : Int) ≤ y) := by omega
@@ -48,16 +50,17 @@ theorem apply_place_cap_w (basis : Array W) (p : Pos) (x y : Nat) (hx : x < p.cf
   simp only [Bool.or_eq_false_iff] at hemp
   unfold Pos.apply
   simp [Facts.mtPlaceFlat, Facts.mtPlaceCapstone, Facts.mtPlaceStanding, Facts.mtPass, hw, h2, hx', hy', hxn, hyn, hidx,
-    hemp.1, hemp.2, hst]
+    hemp.1, hemp.2, hst, dispatch, openingRule, placeOn]
   apply finish_exists
   intro wg bg hwg hbg
   constructor <;> simp only [] <;> first | rfl | assumption | place_bits hs64
 
 theorem apply_place_flat_b (basis : Array W) (p : Pos) (x y : Nat) (hx : x < p.cfg.size) (hy : y < p.cfg.size)
     (h64 : p.cfg.size * p.cfg.size ≤ 64) (hply : 2 ≤ p.move) (hw : p.toMove = .black)
+    (hdis : ∀ k, p.white.getLsbD k = true → p.black.getLsbD k = true → False)
     (hemp : (p.white ||| p.black).getLsbD (x + y * p.cfg.size) = false)
     (hst : p.blackStones ≠ 0#8) :
-    ∃ q, p.apply basis ⟨x, y, Facts.mtPlaceFlat, 0⟩ = .ok q ∧ After p q 64 (x + y * p.cfg.size) p.black q.black := by
+    ∃ q, p.apply basis ⟨x, y, Facts.mtPlaceFlat, 0⟩ = .ok q ∧ After p q 64 (x + y * p.cfg.size) p.black q.black p.white q.white := by
   have h2 : ¬ (p.move < 2) := by omega
   have hx' : ¬ ((p.cfg.size : Int) ≤ x) := by omega
   have hy' : ¬ ((p.cfg.size : Int) ≤ y) := by omega
@@ -72,16 +75,17 @@ theorem apply_place_flat_b (basis : Array W) (p : Pos) (x y : Nat) (hx : x < p.c
   simp only [Bool.or_eq_false_iff] at hemp
   unfold Pos.apply
   simp [Facts.mtPlaceFlat, Facts.mtPlaceCapstone, Facts.mtPlaceStanding, Facts.mtPass, hw, h2, hx', hy', hxn, hyn, hidx,
-    hemp.1, hemp.2, hst]
+    hemp.1, hemp.2, hst, dispatch, openingRule, placeOn]
   apply finish_exists
   intro wg bg hwg hbg
   constructor <;> simp only [] <;> first | rfl | assumption | place_bits hs64
 
 theorem apply_place_cap_b (basis : Array W) (p : Pos) (x y : Nat) (hx : x < p.cfg.size) (hy : y < p.cfg.size)
     (h64 : p.cfg.size * p.cfg.size ≤ 64) (hply : 2 ≤ p.move) (hw : p.toMove = .black)
+    (hdis : ∀ k, p.white.getLsbD k = true → p.black.getLsbD k = true → False)
     (hemp : (p.white ||| p.black).getLsbD (x + y * p.cfg.size) = false)
     (hst : p.blackCaps ≠ 0#8) :
-    ∃ q, p.apply basis ⟨x, y, Facts.mtPlaceCapstone, 0⟩ = .ok q ∧ After p q 64 (x + y * p.cfg.size) p.black q.black := by
+    ∃ q, p.apply basis ⟨x, y, Facts.mtPlaceCapstone, 0⟩ = .ok q ∧ After p q 64 (x + y * p.cfg.size) p.black q.black p.white q.white := by
   have h2 : ¬ (p.move < 2) := by omega
   have hx' : ¬ ((p.cfg.size : Int) ≤ x) := by omega
   have hy' : ¬ ((p.cfg.size : Int) ≤ y) := by omega
@@ -96,7 +100,7 @@ theorem apply_place_cap_b (basis : Array W) (p : Pos) (x y : Nat) (hx : x < p.cf
   simp only [Bool.or_eq_false_iff] at hemp
   unfold Pos.apply
   simp [Facts.mtPlaceFlat, Facts.mtPlaceCapstone, Facts.mtPlaceStanding, Facts.mtPass, hw, h2, hx', hy', hxn, hyn, hidx,
-    hemp.1, hemp.2, hst]
+    hemp.1, hemp.2, hst, dispatch, openingRule, placeOn]
   apply finish_exists
   intro wg bg hwg hbg
   constructor <;> simp only [] <;> first | rfl | assumption | place_bits hs64
